@@ -225,9 +225,9 @@ def cb_q(c):
             elif ctx == "ret":
                 b += ["return %s::%s(%s);" % (R, okv, call)]
             elif ctx == "bin":
-                b += ["long v = (%s) + 0;" % call, 'println("post", %d, v);' % i, "return %s::%s(v);" % (R, okv)]
+                b += ["long v = 0 + (%s);" % call, 'println("post", %d, v);' % i, "return %s::%s(v);" % (R, okv)]
             else:
-                b += ["%s;" % call, 'println("post", %d);' % i, "return %s::%s(%d);" % (R, okv, 100 + i)]
+                b += ["%s;" % call, 'println("post", %d);' % i, "return %s::%s(100);" % (R, okv)]
         out.append("%s f%d(int x) {" % (R, i))
         out += ["    " + x for x in b]
         out.append("}")
@@ -327,31 +327,33 @@ def cb_t(c):
     return "\n".join(out) + "\n"
 
 
-def py_eval(e, a, b):
-    """Largest intermediate magnitude (generator guard against leaving int64); None on a run-time error."""
+def py_eval3(e, a, b):
+    """(value or None, largest intermediate magnitude, error kind or None) - generator-side guard only."""
     k = e[0]
     if k == "A":
-        return a, abs(a)
+        return a, abs(a), None
     if k == "B":
-        return b, abs(b)
+        return b, abs(b), None
     if k == "L":
-        return e[1], abs(e[1])
+        return e[1], abs(e[1]), None
     if k == "D0":
-        return 4, 4
+        return 4, 4, None
     if k == "D1":
-        return None, 0
+        return None, 0, "null"
     if k == "I":
-        v, m = py_eval(e[1], a, b)
-        if v is None or v < 0 or v > 2:
-            return None, m
-        return [5, 15, 25][v], max(m, 25)
-    x, mx = py_eval(e[1], a, b)
+        v, m, err = py_eval3(e[1], a, b)
+        if v is None:
+            return None, m, err
+        if v < 0 or v > 2:
+            return None, m, "bounds"
+        return [5, 15, 25][v], max(m, 25), None
+    x, mx, err = py_eval3(e[1], a, b)
     if x is None:
-        return None, mx
-    y, my = py_eval(e[2], a, b)
+        return None, mx, err
+    y, my, err = py_eval3(e[2], a, b)
     m = max(mx, my)
     if y is None:
-        return None, m
+        return None, m, err
     if k == "+":
         r = x + y
     elif k == "-":
@@ -360,12 +362,17 @@ def py_eval(e, a, b):
         r = x * y
     else:
         if y == 0:
-            return None, m
+            return None, m, "div0" if k == "/" else "mod0"
         q = abs(x) // abs(y)
         if (x < 0) != (y < 0):
             q = -q
         r = q if k == "/" else x - q * y
-    return r, max(m, abs(r))
+    return r, max(m, abs(r)), None
+
+
+def py_eval(e, a, b):
+    v, m, _ = py_eval3(e, a, b)
+    return v, m
 
 
 # ------------------------------------------------------------------ running
@@ -405,11 +412,7 @@ _ERRS = [
 ]
 
 
-def run_impl(impl_dir, c, src=None):
-    src = src if src is not None else to_cb(c)
-    rc, o, e = common.run_cb(impl_dir, src, timeout=10)
-    if rc == 124:
-        rc, o, e = common.run_cb(impl_dir, src, timeout=120)
+def canon_impl(rc, o, e):
     lines = o.split("\n")
     lines.pop()            # text after the last newline is an unfinished line (an arm body that failed mid-way)
     lines = [l.rstrip() for l in lines]
@@ -427,6 +430,59 @@ def run_impl(impl_dir, c, src=None):
     else:
         cls = "rc%d" % rc
     return {"cls": cls, "out": lines}
+
+
+def run_impl(impl_dir, c, src=None):
+    src = src if src is not None else to_cb(c)
+    rc, o, e = common.run_cb(impl_dir, src, timeout=10)
+    if rc == 124:
+        rc, o, e = common.run_cb(impl_dir, src, timeout=120)
+    return canon_impl(rc, o, e)
+
+
+def run_impl_many(impl_dir, cases):
+    """Many programs: chunks of files in a scratch directory, one shell loop per chunk (each run under `timeout`)."""
+    import shutil
+    import tempfile
+    srcs = [to_cb(c) for c in cases]
+    n = len(srcs)
+    if n < 64:
+        return [run_impl(impl_dir, None, src=s) for s in srcs]
+    nchunks = common.NCPU * 4
+    chunks = [list(range(k, n, nchunks)) for k in range(nchunks)]
+
+    def work(idx):
+        if not idx:
+            return []
+        d = tempfile.mkdtemp(prefix="cbrun-c13-", dir=common.SCRATCH_ROOT)
+        try:
+            for j in idx:
+                with open(os.path.join(d, "t%d.cb" % j), "w", encoding="utf-8") as fh:
+                    fh.write(srcs[j])
+            script = "cd %s && for j in %s; do timeout 10 ./main %s/t$j.cb > %s/t$j.out 2> %s/t$j.err; echo $? > %s/t$j.rc; done" % (
+                impl_dir, " ".join(str(j) for j in idx), d, d, d, d)
+            common.sh(["bash", "-c", script], timeout=60 + 12 * len(idx))
+            res = []
+            for j in idx:
+                try:
+                    rc = int(open(os.path.join(d, "t%d.rc" % j)).read().strip())
+                    o = open(os.path.join(d, "t%d.out" % j), "rb").read().decode("utf-8", "replace")
+                    e = open(os.path.join(d, "t%d.err" % j), "rb").read().decode("utf-8", "replace")
+                except (OSError, ValueError):
+                    rc, o, e = 124, "", ""
+                if rc == 124:
+                    res.append(run_impl(impl_dir, None, src=srcs[j]))
+                else:
+                    res.append(canon_impl(rc, o, e))
+            return res
+        finally:
+            shutil.rmtree(d, ignore_errors=True)
+    parts = common.pmap(work, chunks)
+    out = [None] * n
+    for idx, part in zip(chunks, parts):
+        for j, r in zip(idx, part):
+            out[j] = r
+    return out
 
 
 def same(i, m):
@@ -620,11 +676,19 @@ def gen_chain_payloads():
 def gen_random_q(rng, safe):
     n = rng.randint(1, 5)
     ek = rng.choice(["int", "string"])
+    sel = rng.randint(0, n + 1)
     strchain = (not safe) and rng.random() < 0.2
-    ctxs = CTXS[:4] if strchain else CTXS
-    links = [[rng.choice(ctxs[:3] if strchain else ctxs), pick_payload(rng, ek, safe)] for _ in range(n)]
+    links = []
+    for j in range(n):
+        if strchain:
+            ctxs = CTXS[:3]
+        elif safe and 1 <= sel <= n and j < sel - 1:
+            ctxs = CTXS[:4]          # avoidance: no value-discarding link above the failing one
+        else:
+            ctxs = CTXS
+        links.append([rng.choice(ctxs), pick_payload(rng, ek, safe)])
     ok = pick_payload(rng, "string" if strchain else "long", safe)
-    return {"fam": "Q", "kind": rng.choice("RO"), "ok": ok, "sel": rng.randint(0, n + 1), "links": links, "ekind": ek}
+    return {"fam": "Q", "kind": rng.choice("RO"), "ok": ok, "sel": sel, "links": links, "ekind": ek}
 
 
 ATOMS = [["A"], ["B"], ["L", 2], ["I", ["A"]], ["I", ["B"]], ["I", ["L", 1]], ["D0"], ["D1"]]
@@ -647,22 +711,32 @@ def gen_try_exhaustive(thorough):
                     yield {"fam": "T", "checked": chk, "ctx": ctx, "a": a, "b": b, "expr": e}
 
 
-def rand_expr(rng, d):
+NOD_ATOMS = [a for a in ATOMS if a[0] not in ("D0", "D1")]
+
+
+def rand_expr(rng, d, atoms=None):
+    """Pointer dereferences only in expressions of depth <= 1: `((*p - arr[0]) - 1)` and similar shapes crash the
+    parser of the pinned tree (cast look-ahead, DESIGN.md section 7 #36) before anything runs."""
+    if atoms is None:
+        atoms = ATOMS if d <= 1 else NOD_ATOMS
     if d == 0 or rng.random() < 0.25:
-        a = rng.choice(ATOMS + [["L", rng.choice([0, 1, 3, -4, 1000])]])
+        a = rng.choice(atoms + [["L", rng.choice([0, 1, 3, -4, 1000])]])
         if a[0] == "I" and rng.random() < 0.5:
-            return ["I", rand_expr(rng, d - 1) if d > 0 else ["L", rng.randint(-1, 3)]]
+            return ["I", rand_expr(rng, d - 1, NOD_ATOMS) if d > 0 else ["L", rng.randint(-1, 3)]]
         return a
-    return [rng.choice(OPS), rand_expr(rng, d - 1), rand_expr(rng, d - 1)]
+    return [rng.choice(OPS), rand_expr(rng, d - 1, atoms), rand_expr(rng, d - 1, atoms)]
 
 
 def gen_random_t(rng, safe):
     while True:
         e = rand_expr(rng, rng.randint(1, 3))
         a, b = rng.choice(AB + [(rng.randint(-20, 20), rng.randint(-3, 3))])
-        v, m = py_eval(e, a, b)
-        if m < 2 ** 62:
-            break
+        v, m, err = py_eval3(e, a, b)
+        if m >= 2 ** 62:
+            continue
+        if safe and (err == "mod0" or (v is not None and not -2 ** 31 <= v < 2 ** 31)):
+            continue          # avoidance: #25 and payloads outside int
+        break
     return {"fam": "T", "checked": rng.random() < 0.5, "ctx": "ret" if safe else rng.choice(["ret", "decl", "void", "main"]),
             "a": a, "b": b, "expr": e}
 
@@ -832,7 +906,7 @@ def run(rep):
 
     cases, origin = build_cases(seed, thorough)
     models = run_models(cases)
-    impls = common.pmap(lambda c: run_impl(impl, c), cases)
+    impls = run_impl_many(impl, cases)
 
     hist, lab_hist = {}, {}
     n_conf = n_safe = 0
